@@ -10,7 +10,8 @@ use similar::algorithms::{self, Compact, DiffHook, NoFinishHook, Replace};
 
 pub struct C08;
 
-pub const STACKS: [&str; 6] = ["bare", "Replace", "Compact", "Compact<Replace>", "NoFinishHook", "&mut"];
+pub const STACKS: [&str; 8] = ["bare", "Replace", "Compact", "Compact<Replace>", "NoFinishHook", "&mut", "Replace<NoFinishHook>", "Replace<&mut>"];
+pub const NSTACKS: u8 = 8;
 
 struct Run {
     result: Result<(), usize>,
@@ -21,7 +22,7 @@ struct Run {
 fn run_with<H: DiffHook<Error = usize>>(c: &SeqCase, stack: u8, hook: H, get: impl Fn(&H) -> (Vec<Ev>, usize)) -> Run {
     let alg = alg_of(c.alg);
     let (old, new) = (&c.old[..], &c.new[..]);
-    match stack % 6 {
+    match stack % NSTACKS {
         0 => {
             let mut h = hook;
             let result = algorithms::diff(alg, &mut h, old, c.old_r(), new, c.new_r());
@@ -52,10 +53,26 @@ fn run_with<H: DiffHook<Error = usize>>(c: &SeqCase, stack: u8, hook: H, get: im
             let (events, cae) = get(&h.into_inner());
             Run { result, events, calls_after_error: cae }
         }
-        _ => {
+        5 => {
             let mut h = hook;
             let result = {
                 let mut r: &mut H = &mut h;
+                algorithms::diff(alg, &mut r, old, c.old_r(), new, c.new_r())
+            };
+            let (events, cae) = get(&h);
+            Run { result, events, calls_after_error: cae }
+        }
+        6 => {
+            // replace calls travel through the finish-suppressing wrapper
+            let mut h = Replace::new(NoFinishHook::new(hook));
+            let result = algorithms::diff(alg, &mut h, old, c.old_r(), new, c.new_r());
+            let (events, cae) = get(&h.into_inner().into_inner());
+            Run { result, events, calls_after_error: cae }
+        }
+        _ => {
+            let mut h = hook;
+            let result = {
+                let mut r = Replace::new(&mut h);
                 algorithms::diff(alg, &mut r, old, c.old_r(), new, c.new_r())
             };
             let (events, cae) = get(&h);
@@ -93,8 +110,8 @@ fn expand_replace(ev: &[Ev]) -> Vec<Ev> {
 }
 
 fn check_case(c: &SeqCase, obs: &mut Obs) -> Verdict {
-    let stack = c.mode % 6;
-    let overrides = (c.mode / 6) % 2 == 0;
+    let stack = c.mode % NSTACKS;
+    let overrides = (c.mode / NSTACKS) % 2 == 0;
     let name = format!("{} / {} / {}", alg_name(c.alg), STACKS[stack as usize], if overrides { "hook overrides replace" } else { "hook with default replace" });
     let ok = match run(c, stack, overrides, None) {
         Ok(r) => r,
@@ -105,7 +122,9 @@ fn check_case(c: &SeqCase, obs: &mut Obs) -> Verdict {
     }
     let log = ok.events.clone();
     let fin = log.iter().filter(|e| **e == Ev::Finish).count();
-    if stack == 4 {
+    if stack == 6 {
+        // judged below
+    } else if stack == 4 {
         if fin != 0 {
             return Verdict::Fail(format!("{}: finish reached the hook through NoFinishHook (log {:?})", name, log));
         }
@@ -123,6 +142,29 @@ fn check_case(c: &SeqCase, obs: &mut Obs) -> Verdict {
     } else {
         if fin != 1 || log.last() != Some(&Ev::Finish) {
             return Verdict::Fail(format!("{}: finish must be called exactly once and last; log {:?}", name, log));
+        }
+    }
+    if stack == 6 {
+        if fin != 0 {
+            return Verdict::Fail(format!("{}: finish reached the hook through NoFinishHook (log {:?})", name, log));
+        }
+        // everything except finish is forwarded unchanged, replace calls included
+        match run(c, 1, overrides, None) {
+            Ok(r) => {
+                let mut want = r.events.clone();
+                want.retain(|e| *e != Ev::Finish);
+                if want != log {
+                    return Verdict::Fail(format!("{}: forwarded calls {:?} != calls of the same stack without the wrapper, minus finish {:?}", name, log, want));
+                }
+            }
+            Err(p) => return Verdict::Fail(format!("Replace run: {}", p)),
+        }
+    }
+    if stack == 7 {
+        match run(c, 1, overrides, None) {
+            Ok(r) if r.events == log => {}
+            Ok(r) => return Verdict::Fail(format!("{}: calls through Replace<&mut> {:?} != Replace<hook> {:?}", name, log, r.events)),
+            Err(p) => return Verdict::Fail(format!("Replace run: {}", p)),
         }
     }
     if stack == 5 {
@@ -180,8 +222,8 @@ fn check_case(c: &SeqCase, obs: &mut Obs) -> Verdict {
 
 fn strat(tier: Tier) -> BoxedStrategy<SeqCase> {
     prop_oneof![
-        8 => seq_case(tier.pick(14, 24), true, 12),
-        1 => seq_case(tier.pick(40, 80), true, 12),
+        8 => seq_case(tier.pick(14, 24), true, 2 * NSTACKS),
+        1 => seq_case(tier.pick(40, 80), true, 2 * NSTACKS),
     ]
     .boxed()
 }
@@ -191,7 +233,7 @@ fn enum_small(tier: Tier, f: &mut dyn FnMut(SeqCase) -> bool) {
     for a in &seqs {
         for b in &seqs {
             for alg in 0..3u8 {
-                for mode in 0..12u8 {
+                for mode in 0..2 * NSTACKS {
                     let mut c = SeqCase::full(alg, a.clone(), b.clone());
                     c.mode = mode;
                     if !f(c) {
@@ -208,7 +250,7 @@ impl Prop for C08 {
     const ID: &'static str = "C08";
     const LEVEL: &'static str = "fault_enumeration";
     fn rule() -> String {
-        "cases = (algorithm, old, new, ranges, adapter stack in {bare, Replace, Compact, Compact<Replace>, NoFinishHook, &mut}, hook flavour in {overrides replace, default replace}); for each case the success log is recorded and then EVERY call index k of that log is made to fail in a separate execution (fault enumeration; 'executions' counts them). Oracle: finish exactly once and last (never through NoFinishHook, which otherwise forwards the bare run unchanged); failing call k => diff returns exactly Err(k), the hook saw exactly k+1 calls and they are the first k+1 calls of the success log; default-replace log == overriding log with replace expanded to delete+insert. Non-trivial = success log has >= 3 calls incl. a change; distinct = distinct serialized case.".into()
+        "cases = (algorithm, old, new, ranges, adapter stack in {bare, Replace, Compact, Compact<Replace>, NoFinishHook, &mut, Replace<NoFinishHook>, Replace<&mut>}, hook flavour in {overrides replace, default replace}); for each case the success log is recorded and then EVERY call index k of that log is made to fail in a separate execution (fault enumeration; 'executions' counts them). Oracle: finish exactly once and last (never through NoFinishHook, which otherwise forwards the bare run unchanged); failing call k => diff returns exactly Err(k), the hook saw exactly k+1 calls and they are the first k+1 calls of the success log; default-replace log == overriding log with replace expanded to delete+insert. Non-trivial = success log has >= 3 calls incl. a change; distinct = distinct serialized case.".into()
     }
     fn assumptions() -> Vec<String> {
         vec!["the failing hook returns its call index as the error value, so 'precisely that error' is checked by value".into()]
@@ -218,7 +260,7 @@ impl Prop for C08 {
             Stage {
                 name: "enum-small",
                 kind: StageKind::Enumerate {
-                    scope: format!("all (old,new) over {{0,1}} with lengths <= {} x 3 algorithms x 6 stacks x 2 hook flavours x every failing call index", tier.pick(4, 5)),
+                    scope: format!("all (old,new) over {{0,1}} with lengths <= {} x 3 algorithms x 8 stacks x 2 hook flavours x every failing call index", tier.pick(4, 5)),
                     exhaustive: true,
                     gen: enum_small,
                 },
